@@ -372,8 +372,36 @@ func c02MeasResult(p *ana.Prog, r *ana.Result, fn *ssa.Function, ret *ssa.Return
 			}
 			_, hasErr := fields["Error"]
 			fromSel := func(val ssa.Value, f string) bool {
-				ch, root := fieldChain(val)
-				return ch == "[]."+f && root == param
+				if ch, root := fieldChain(val); ch == "[]."+f && root == param {
+					return true
+				}
+				// through a local copy of the selected element: sel := ms[i]; sel.F
+				isElem := func(v ssa.Value) bool {
+					ld, ok := v.(*ssa.UnOp)
+					if !ok || ld.Op != token.MUL {
+						return false
+					}
+					ia, ok := ld.X.(*ssa.IndexAddr)
+					return ok && ia.X == param
+				}
+				switch x := val.(type) {
+				case *ssa.Field:
+					return fieldNameOf(x.X.Type(), x.Field) == f && isElem(x.X)
+				case *ssa.UnOp:
+					if fa, ok := x.X.(*ssa.FieldAddr); ok && x.Op == token.MUL && fieldNameOf(fa.X.Type(), fa.Field) == f {
+						if a, ok := fa.X.(*ssa.Alloc); ok {
+							n, good := 0, false
+							for _, ref := range ana.Referrers(a) {
+								if st, ok := ref.(*ssa.Store); ok && st.Addr == ssa.Value(a) {
+									n++
+									good = isElem(st.Val)
+								}
+							}
+							return n == 1 && good
+						}
+					}
+				}
+				return false
 			}
 			if !whole && !hasErr && fromSel(fields["Offset"], "Offset") && fromSel(fields["Timestamp"], "Timestamp") {
 				r.Ok("C02.error-nil", fname, "result:built-from-selected", posOf(p, ret), "result is a fresh Measurement{Timestamp, Offset} of the selected element; Error is never assigned (nil)")
